@@ -16,5 +16,5 @@ Fixpoint first_diff_h (k : nat) (m : list (list Z)) (o : list int) : option (nat
   | [], _ :: _ => Some (k, [])
   end.
 
-Definition check_case_h (sess : Z) (notify : bool) (window : Z) (ops : list op) (digests : list int) : option (nat * list Z) :=
-  first_diff_h 0 (full_trace sess notify window ops) digests.
+Definition check_case_h (sess : Z) (notify : bool) (window : Z) (fx : bool) (ops : list op) (digests : list int) : option (nat * list Z) :=
+  first_diff_h 0 (full_trace sess notify window fx ops) digests.
